@@ -41,6 +41,9 @@ Section Keeps.
   Lemma good_expect_p p ts t r : expect_p p ts = Some (t, r) -> good ts -> Q t /\ good r.
   Proof. destruct ts as [|t0 r0]; [discriminate|]. cbn. destruct (p (tk t0)); [|discriminate]. intros H G; inversion H; subst. inversion G; auto. Qed.
 
+  Lemma good_skip_dup ts : good ts -> good (skip_dup_newline ts).
+  Proof. intros H. unfold skip_dup_newline. destruct (is_tk NEWLINE ts && is_tk2 NEWLINE ts); [apply good_tl|]; exact H. Qed.
+
   Lemma good_skip_to_newline ts : good ts -> good (skip_to_newline ts).
   Proof. induction ts as [|t r IH]; intros H; [constructor|]. cbn. destruct (tk_eqb (tk t) NEWLINE); [exact H|]. inversion H; auto. Qed.
   Lemma good_skip_comment fuel : forall ts r, skip_comment fuel ts = Some r -> good ts -> good r.
@@ -257,8 +260,9 @@ Section Keeps.
     unfold parse. intros H G. assert (G0 := good_skip_opt NEWLINE _ (good_skip_opt WHITESPACE _ G)).
     destruct (p_header (skip_opt NEWLINE (skip_opt WHITESPACE ts))) as [[h r0]|] eqn:E0; [|discriminate].
     destruct (good_p_header _ _ _ E0 G0) as [Qh G1].
-    destruct (p_typedefs (S (length r0)) r0) as [[tds r1]|] eqn:E1; [|discriminate]. destruct (good_p_typedefs _ _ _ _ E1 G1) as [Qt G2].
-    destruct (p_conditions (S (length r1)) r1) as [[cs r2]|]; [|discriminate].
+    destruct (p_typedefs (S (length r0)) (skip_dup_newline r0)) as [[tds r1]|] eqn:E1; [|discriminate].
+    destruct (good_p_typedefs _ _ _ _ E1 (good_skip_dup _ G1)) as [Qt G2].
+    destruct (p_conditions (S (length r1)) (skip_dup_newline r1)) as [[cs r2]|]; [|discriminate].
     destruct (skip_opt NEWLINE r2); [|discriminate]. inversion H; subst. cbn. auto.
   Qed.
 End Keeps.
@@ -411,8 +415,9 @@ Section KeepsConds.
     unfold parse. intros H G. assert (G0 := good_skip_opt Q NEWLINE _ (good_skip_opt Q WHITESPACE _ G)).
     destruct (p_header (skip_opt NEWLINE (skip_opt WHITESPACE ts))) as [[h r0]|] eqn:E0; [|discriminate].
     destruct (good_p_header Q _ _ _ E0 G0) as [_ G1].
-    destruct (p_typedefs (S (length r0)) r0) as [[tds r1]|] eqn:E1; [|discriminate]. destruct (good_p_typedefs Q _ _ _ _ E1 G1) as [_ G2].
-    destruct (p_conditions (S (length r1)) r1) as [[cs r2]|] eqn:E2; [|discriminate].
-    destruct (skip_opt NEWLINE r2); [|discriminate]. inversion H; subst. cbn. eapply good_p_conditions; eauto.
+    destruct (p_typedefs (S (length r0)) (skip_dup_newline r0)) as [[tds r1]|] eqn:E1; [|discriminate].
+    destruct (good_p_typedefs Q _ _ _ _ E1 (good_skip_dup Q _ G1)) as [_ G2].
+    destruct (p_conditions (S (length r1)) (skip_dup_newline r1)) as [[cs r2]|] eqn:E2; [|discriminate].
+    destruct (skip_opt NEWLINE r2); [|discriminate]. inversion H; subst. cbn. eapply good_p_conditions; [exact E2|apply good_skip_dup; exact G2].
   Qed.
 End KeepsConds.
